@@ -739,6 +739,11 @@ def gen_C15(rng, n):
         for c in (0, 1, -1, 10**p, -(10**p), 10**p + 1, 10**p - 1, 5 * 10 ** max(0, p - 1), -5 * 10 ** max(0, p - 1), MAXC, -MAXC, 15, -15, -(10**p) - 1):
             for op in UNOPS15:
                 out.append(un(op, 5, c, p))
+    # the 17-bit kernel itself (hook): every threshold neighbourhood, then a stride over 1..99999
+    for t in (1, 9, 10, 11, 99, 100, 101, 999, 1000, 1001, 9999, 10000, 10001, 99998, 99999):
+        out.append("w.lt5 5 %x" % t)
+    for vv in range(1, 100000, 331):
+        out.append("w.lt5 5 %x" % vv)
     # log10 thresholds of the cascade
     for t in (10**5, 10**10, 10**16, 10**32, 10**26, 10**15, 10**21, 10**37):
         for d in (-1, 0, 1, t // 7):
@@ -777,6 +782,36 @@ def gen_C16(rng, n):
                             out.append("w.sdr %d %s %x %s" % (m, hx(a), k, hx(den)))
                             out.append("w.sdr %d %s %x %s" % (m + 4, hx(-a), k, hx(den)))
                             out.append("w.sdr %d %s %x %s" % (m + 4, hx(a), k, hx(-den)))
+    # the private kernels themselves (cfg(fpdec_verif) hooks): 128x128 product, 256/64, 256/128 (general and
+    # special case xh < y), msb
+    U = 2**128 - 1
+    words = (0, 1, 2, 2**32 - 1, 2**32, 2**63, 2**64 - 1, 2**64, 2**64 + 1, 2**96 + 2**32 + 1, 2**127 - 1, 2**127, 2**127 + 1, U - 1, U,
+             10**19, 10**38, 0xffffffff00000000ffffffff00000000, 0x00000000ffffffff00000000ffffffff)
+    for x in words:
+        out.append("w.msb 5 %x" % x) if x else None
+        for y in words:
+            out.append("w.mulw 5 %x %x" % (x, y))
+    for den in dens + (2**64 - 2, 2**127, U, 2**127 + 2**63, (2**63) * 2**64, (2**63) * 2**64 + 1, 2**128 - 2**64, 2**128 - 2**64 + 1):
+        for xh in (0, 1, den - 1, den, den + 1, 2 * den + 1, U, 2**127, 2**64 - 1):
+            if not 0 <= xh <= U:
+                continue
+            for xl in (0, 1, den - 1, den, U, U - 1, 2**127, 2**64, 2**64 - 1, (den * 3) & U):
+                if not 0 <= xl <= U:
+                    continue
+                if den < 2**64:
+                    out.append("w.idiv64 5 %x %x %x" % (xh, xl, den))
+                out.append("w.idiv 5 %x %x %x" % (xh, xl, den))
+                if den >= 2**64 and xh < den:
+                    out.append("w.idivs 5 %x %x %x" % (xh, xl, den))
+    # quotient digit exactly one too large before correction: divisor high word small, low word large
+    for hi in (1, 2, 2**31, 2**62, 2**63 - 1, 2**63, 2**64 - 1):
+        for lo in (0, 1, 2**63, 2**64 - 2, 2**64 - 1):
+            den = hi * 2**64 + lo
+            for q in (2**128 - 1, 2**64, 2**64 - 1, 2**127, 1, 2**128 - 2**64):
+                for r in (0, 1, den - 1, den // 2):
+                    num = q * den + r
+                    out.append("w.idiv 5 %x %x %x" % (num >> 128, num & U, den))
+                    out.append("w.idivs 5 %x %x %x" % (num >> 128, num & U, den))
     # Decimal-level wide operations
     for m in MODES:
         for sgn in (1, -1):
@@ -885,6 +920,19 @@ def gen_C06(rng, n):
     for pos in range(9):
         for ch in ("é", "٣", " ", "𝟏"):
             out.append(parse_line("12345678"[:pos] + ch + "12345678"[pos:]))
+    # the SWAR helpers themselves (hook): every byte value at every lane of an all-digit word; random digit words
+    base_w = [0x30 + d for d in (1, 2, 3, 4, 5, 6, 7, 8)]
+    for lane in range(8):
+        for bv in range(256):
+            w = list(base_w); w[lane] = bv
+            out.append("w.chd 5 %x" % sum(x << (8 * i) for i, x in enumerate(w)))
+    for _ in range(300):
+        ds = [rng.randrange(10) for _ in range(8)]
+        if rng.randrange(4) == 0:
+            ds = [rng.choice((0, 9)) for _ in range(8)]
+        wv = sum((0x30 + x) << (8 * i) for i, x in enumerate(ds))
+        out.append("w.chv 5 %x" % wv)
+        out.append("w.chd 5 %x" % wv)
     # all literals of length <= 3 over a small alphabet (exhaustive)
     alpha = "+-.eE0159x"
     def rec(prefix, depth):
@@ -1130,6 +1178,18 @@ def gen_C13(rng, n):
         elif k == 4:
             x = rng.randrange(1, 10**rng.randrange(1, 19)) / 10.0**rng.randrange(0, 25)
             f64(bits64(x)); f32(bits32(x))
+        elif k < 9:
+            den = rng.choice(dens) if rng.randrange(3) == 0 else (rng.getrandbits(rng.randrange(1, 129)) or 1)
+            xh = rng.getrandbits(rng.randrange(0, 129)); xl = rng.getrandbits(128)
+            kind = rng.randrange(4)
+            if kind == 0:
+                out.append("w.mulw 5 %x %x" % (rng.getrandbits(rng.randrange(1, 129)), rng.getrandbits(rng.randrange(1, 129))))
+            elif kind == 1 and den < 2**64:
+                out.append("w.idiv64 5 %x %x %x" % (xh, xl, den))
+            elif kind == 2 and den >= 2**64:
+                out.append("w.idivs 5 %x %x %x" % (xh % den, xl, den))
+            else:
+                out.append("w.idiv 5 %x %x %x" % (xh, xl, den))
         else:
             x = (rng.randrange(1, 2**40) | 1) / 2.0**rng.randrange(1, 30)
             f64(bits64(x))
